@@ -11,7 +11,10 @@ _T_DIFF = ("finite tables regenerated from the live code and proved equal by dec
            "the real Python and the compiled model driver; failing-input search with the property's oracle on the real code")
 _T_TR = "source-to-Lean TRANSLATION (Python ast -> Lean, regenerated every run) of {what}, each translated definition proved EQUAL to the model; plus "
 TECHNIQUE = {
-    "C05": _T_BASE + _T_TR.format(what="the lookup classes (serialize/lookup.py, parse/lookup.py) and split_iri") + _T_DIFF,
+    "C05": _T_BASE + _T_TR.format(what="the lookup classes (serialize/lookup.py, parse/lookup.py), split_iri, TermEncoder.encode_iri_indices and the reader's Decoder.ingest_*_entry / decode_iri / decode_literal") + _T_DIFF,
+    "C16": _T_BASE + _T_TR.format(what="the reader's term level Decoder.ingest_*_entry / decode_iri / decode_literal and the LookupDecoder they drive (which ids are refused, with which exception)") + _T_DIFF,
+    "C04": _T_BASE + _T_TR.format(what="the reader's term level Decoder.ingest_*_entry / decode_iri / decode_literal and the LookupDecoder they drive (which references resolve, which raise)") + _T_DIFF,
+    "C01": _T_BASE + _T_TR.format(what="the term level of both sides: TermEncoder.encode_iri_indices / encode_literal and Decoder.ingest_*_entry / decode_iri / decode_literal, with the lookup classes") + _T_DIFF,
     "C18": _T_BASE + _T_TR.format(what="the lookup classes (Lookup.insert / make_last_to_evict / encode_entry_index: the pinning logic) and the row bracket TermEncoder.start_row / end_row") + _T_DIFF,
     "C20": _T_BASE + _T_TR.format(what="the row bracket TermEncoder.start_row / end_row (when a stream refuses to go on) and the pinning logic of the lookup classes") + _T_DIFF,
     "C03": _T_BASE + _T_TR.format(what="TermEncoder.encode_iri_indices / encode_literal and the lookup classes they drive (entry rows, ids, zero forms, oneof member)") + _T_DIFF + "; the Lean reference decoder run on the real bytes",
